@@ -566,8 +566,8 @@ def gen_line(rng, o, bad):
     if op == "resetv":
         h = src()
         n = len(T[h][1]) if h in T and T[h] is not None else 2
-        if wild and rng.random() < 0.5:
-            n = max(0, n + rng.choice([-1, 1]))
+        if rng.random() < (0.5 if wild else 0.25):
+            n = max(0, n + rng.choice([-1, 1]))      # wrong length: rejected, and the target (shared or not) keeps its value
         return "resetv %d %s" % (h, vtok(rand_vals(rng, n)))
     if op in ("iadd", "isub", "piadd_value"):
         if op == "piadd_value":
